@@ -37,13 +37,16 @@ TOOLS = {'h1h1h1h1h1h1h1h1': 'cursor', 'h2h2h2h2h2h2h2h2': 'claude'}
 HASHES = list(TOOLS)
 
 
-def mk_prompt(M, tool):
+HUMANS = {'h1h1h1h1h1h1h1h1': 'Bob', 'h2h2h2h2h2h2h2h2': None}
+
+
+def mk_prompt(M, tool, human=None):
     agent = mk_struct(M, AGENT, tool=pystring(tool), id=pystring('id-' + tool), model=pystring('m'))
-    return mk_struct(M, PR, agent_id=agent, human_author=none(), messages=VecV([]), total_additions=Sc(0, 32),
+    return mk_struct(M, PR, agent_id=agent, human_author=some(pystring(human)) if human else none(), messages=VecV([]), total_additions=Sc(0, 32),
                      total_deletions=Sc(0, 32), accepted_lines=Sc(0, 32), overriden_lines=Sc(0, 32), messages_url=none())
 
 
-def sym_note(h, tag, files, kinds_iter, hash_shift=0):
+def sym_note(h, tag, files, kinds_iter, hash_shift=0, humans=False):
     """files: list of (name, n_entries, n_ranges). -> (log value, description [(file, hash, [(a,b)])])"""
     P = h.P
     M = P.M
@@ -68,7 +71,7 @@ def sym_note(h, tag, files, kinds_iter, hash_shift=0):
             desc.append((name, hk, dr))
         fas.append(mk_struct(M, FILE, file_path=pystring(name), entries=VecV(entries)))
     meta = mk_struct(M, META, schema_version=pystring('authorship/3.0.0'), git_ai_version=none(), base_commit_sha=pystring('c'),
-                     prompts=MapV('btree', [[pystring(k), mk_prompt(M, t)] for k, t in TOOLS.items()], 'map'))
+                     prompts=MapV('btree', [[pystring(k), mk_prompt(M, t, HUMANS[k] if humans else None)] for k, t in TOOLS.items()], 'map'))
     return mk_struct(M, LOG, attestations=VecV(fas), metadata=meta), desc
 
 
@@ -200,6 +203,21 @@ def plan(tier, seed):
         for o in (0, 3, 6):
             tasks.append(('overlay', {'sizes': [2], 'notes': ['note'], 'same_commit': False, 'opts': o, 'layout': layout}))
             tasks.append(('overlay', {'sizes': [1, 1], 'notes': ['note', 'none'], 'same_commit': False, 'opts': o, 'layout': layout}))
+    # K3 with a note that lists, besides the file, ANOTHER file under the name blamed today
+    for notes in (('renamed',), ('note',)):
+        for sizes in ((1,), (2,)):
+            for o in (0, 3, 6):
+                tasks.append(('overlay', {'sizes': list(sizes), 'notes': list(notes), 'same_commit': False, 'opts': o, 'other_file': True}))
+    if tier != 'quick':
+        for o in (0, 5):
+            tasks.append(('overlay', {'sizes': [1, 2], 'notes': ['renamed', 'note'], 'same_commit': False, 'opts': o, 'other_file': True}))
+    # K6
+    for size in ((2, 3) if tier == 'quick' else (2, 3, 4)):
+        for note in ('note', 'renamed', 'none'):
+            for split in (True, False):
+                for kinds in (('rr', 'sr', 'rs') if note != 'none' else ('rr',)):
+                    for hs in ((0, 1) if note != 'none' else (0,)):
+                        tasks.append(('split', {'size': size, 'note': note, 'split': split, 'kinds': kinds, 'hs': hs}))
     # K5
     for n in (1, 2):
         tasks.append(('json_lines', {'n': n}))
@@ -275,7 +293,7 @@ def mk_hunk(M, fs, fe, os_, oe, sha, author, orig_path=None):
                      committer_tz=pystring('+0000'), is_boundary=FALSE, **kw)
 
 
-def mk_options(M, by_hash, human_as_human, mark_unknown):
+def mk_options(M, by_hash, human_as_human, mark_unknown, **over):
     names = M.src.struct_fields(OPTS)
     if names is None:
         raise Unsupported('GitAiBlameOptions not found')
@@ -291,6 +309,10 @@ def mk_options(M, by_hash, human_as_human, mark_unknown):
     }
     for n in names:
         vals[n] = defaults.get(n, FALSE)
+    for n, v in over.items():
+        if n not in vals:
+            raise Unsupported('GitAiBlameOptions has no field %s' % n)
+        vals[n] = v
     return Agg(OPTS, [vals[n] for n in names])
 
 
@@ -325,7 +347,11 @@ def ob_overlay(h, shape):
             else:
                 fname = 'new.rs' if kind == 'note' else 'old.rs'
                 kinds = iter('sr' * 4)
-                log, desc = sym_note(h, 'n' + sha, [(fname, 2, 1)], kinds)
+                listed = [(fname, 2, 1)]
+                if shape.get('other_file'):
+                    # the commit also had ANOTHER file under the name that is blamed today (renamed onto a name used before)
+                    listed.append(('new.rs' if fname == 'old.rs' else 'other.rs', 1, 1))
+                log, desc = sym_note(h, 'n' + sha, listed, kinds)
                 notes[sha] = log
                 note_desc[sha] = desc
     P.state['notes'] = notes
@@ -467,6 +493,83 @@ def ob_porcelain(h, shape):
     h.sample = h.witness()
 
 
+def ob_split(h, shape):
+    """K6: populate_ai_human_authors (splitting hunks by the person behind each AI session) neither loses nor renumbers
+    a line: every final line stays in exactly one hunk, with the commit, the originating path and the ORIGINAL line
+    number git gave, and - when splitting is on - under the person its session names"""
+    P = h.P
+    M = P.M
+    LIM = (1 << 20) - 1
+    size = shape['size']
+    kind = shape['note']
+    fs = h.u32('fs', 1, LIM)
+    os_ = h.u32('os', 1, LIM)
+    fe = binop('Add', fs, Sc(size - 1, 32))
+    oe = binop('Add', os_, Sc(size - 1, 32))
+    path_then = 'old.rs' if kind == 'renamed' else 'new.rs'
+    hunk = mk_hunk(M, fs, fe, os_, oe, 'c1c1', 'Alice', path_then)
+    notes = {}
+    desc = []
+    if kind != 'none':
+        log, desc = sym_note(h, 'nc1c1', [(path_then, 2, 1)], iter(shape.get('kinds', 'rr')), shape.get('hs', 0), humans=True)
+        notes['c1c1'] = log
+    else:
+        notes['c1c1'] = None
+    P.state['notes'] = notes
+    P.state['notes_layout'] = {}
+    split = bool(shape.get('split', True))
+    opts = mk_options(M, False, False, False, split_hunks_by_ai_author=Sc(split, 0))
+    h.inputs_struct = {'hunk': {'final_start': fs, 'orig_start': os_, 'size': size, 'orig_path': path_then}, 'note': desc_json(desc) if kind != 'none' else None,
+                       'file': 'new.rs', 'split': split}
+    try:
+        r = P.call_named('commands::blame::Repository::populate_ai_human_authors',
+                         [Ref(Cell(Opaque('Repository', None))), VecV([hunk]), pystr('new.rs'), Ref(Cell(opts))])
+    except Panic as e:
+        h.panic('K6-no-panic', e.msg)
+        return
+    if r.var != 'Ok':
+        h.require(False, 'K6-ok', 'populate_ai_human_authors returned Err')
+        return
+    out = r.f[0].e
+    h.cover('K6-split-into-%d' % min(len(out), 3))
+    for k in range(size):
+        L = binop('Add', fs, Sc(k, 32))
+        O = binop('Add', os_, Sc(k, 32))
+        cover = []
+        right = []
+        person_ok = []
+        dl = expected_session(desc, path_then, O) if kind != 'none' else []
+        for hk in out:
+            rg = field(M, hk, HUNK, 'range')
+            og = field(M, hk, HUNK, 'orig_range')
+            inside = z3.And(binop('Le', rg.f[0], L).z(), binop('Le', L, rg.f[1]).z())
+            cover.append(inside)
+            same_sha = bytes(concrete_bytes(as_bytes(field(M, hk, HUNK, 'commit_sha')))).decode() == 'c1c1'
+            op = field(M, hk, HUNK, 'orig_path')
+            same_path = op.var == 'Some' and bytes(concrete_bytes(as_bytes(op.f[0]))).decode() == path_then
+            orig_of = binop('Add', og.f[0], binop('Sub', L, rg.f[0]))
+            right.append(z3.And(inside, z3.BoolVal(same_sha and same_path), binop('Eq', orig_of, O).z(), binop('Le', orig_of, og.f[1]).z()))
+            if split:
+                ha = field(M, hk, HUNK, 'ai_human_author')
+                got = bytes(concrete_bytes(as_bytes(ha.f[0]))).decode() if ha.var == 'Some' else None
+                conds = []
+                not_earlier = []
+                for c, hsh in dl:
+                    if HUMANS[hsh] == got:
+                        conds.append(all_of(not_earlier + [c]))
+                    not_earlier.append(neg(c))
+                if got is None:
+                    conds.append(all_of(not_earlier))
+                person_ok.append(z3.And(inside, (any_of(conds) if conds else z3.BoolVal(False))))
+        h.require(z3.PbEq([(c, 1) for c in cover], 1) if cover else False, 'K6-each-line-in-exactly-one-hunk', 'after splitting, a blamed line is covered by no hunk or by several')
+        h.require(z3.Or(right) if right else False, 'K6-line-keeps-commit-path-and-original-number',
+                  'after splitting, final line %d of the hunk is not reported with the commit, path and original line number git gave' % (k + 1))
+        if split:
+            h.require(z3.Or(person_ok) if person_ok else False, 'K6-line-is-under-the-person-of-its-session',
+                      'after splitting, final line %d of the hunk is grouped under a person who is not the one its session names' % (k + 1))
+    h.sample = h.witness()
+
+
 def int_digits(P, v):
     """decimal digits of a symbolic u32 as bytes (shares the formatter model's digit variables)"""
     from mirsym.models.fmt import int_digits as fmt_digits
@@ -546,7 +649,7 @@ def ob_json_lines(h, shape):
     h.sample = h.witness()
 
 
-OBLIGATIONS = {'lookup': ob_lookup, 'overlay': ob_overlay, 'porcelain': ob_porcelain, 'json_lines': ob_json_lines}
+OBLIGATIONS = {'lookup': ob_lookup, 'overlay': ob_overlay, 'porcelain': ob_porcelain, 'json_lines': ob_json_lines, 'split': ob_split}
 
 
 def _concrete_expected(desc, file, line):
@@ -742,7 +845,54 @@ def extra_checks(tier, seed, native):
     return out
 
 
+def _replay_split(v, native):
+    """K6 natively: a real commit carrying the counterexample's note, the real populate_ai_human_authors on the hunk"""
+    import os
+    import subprocess
+    import tempfile
+    inp = v['inputs']
+    ob = v['obligation']
+    tmp = tempfile.mkdtemp(prefix='vc09s')
+    env = dict(os.environ, GIT_AUTHOR_NAME='Alice', GIT_AUTHOR_EMAIL='a@b', GIT_COMMITTER_NAME='Alice', GIT_COMMITTER_EMAIL='a@b',
+               HOME=tmp, GIT_CONFIG_NOSYSTEM='1')
+    try:
+        _git(tmp, env, 'init', '-q', '.')
+        _git(tmp, env, 'commit', '-q', '--allow-empty', '-m', 'c1c1')
+        sha = _git(tmp, env, 'rev-parse', 'HEAD').strip()
+        if inp.get('note') is not None:
+            txt = native('c09_note_text', {'note': inp['note'], 'base': sha, 'humans': True})['text']
+            open(os.path.join(tmp, '.note'), 'w').write(txt)
+            _git(tmp, env, 'notes', '--ref=ai', 'add', '-f', '-F', '.note', sha)
+        hk = inp['hunk']
+        r = native('c09_split', {'repo': tmp, 'file': inp['file'], 'split': inp['split'],
+                                 'hunk': {'final_start': hk['final_start'], 'orig_start': hk['orig_start'], 'size': hk['size'], 'commit_sha': sha, 'orig_path': hk['orig_path']}})
+        if 'panic' in r:
+            return {'reproduced': v['kind'] == 'panic', 'native': r}
+        if v['kind'] == 'panic':
+            return {'reproduced': False, 'native': r}
+        if not r.get('ok'):
+            return {'reproduced': ob == 'K6-ok', 'native': r}
+        bad = {'K6-each-line-in-exactly-one-hunk': False, 'K6-line-keeps-commit-path-and-original-number': False, 'K6-line-is-under-the-person-of-its-session': False}
+        for k in range(hk['size']):
+            L, O = hk['final_start'] + k, hk['orig_start'] + k
+            cov = [x for x in r['hunks'] if x['range'][0] <= L <= x['range'][1]]
+            if len(cov) != 1:
+                bad['K6-each-line-in-exactly-one-hunk'] = True
+            if not any(x['sha'] == sha and x.get('orig_path') == hk['orig_path'] and x['orig'][0] + (L - x['range'][0]) == O and O <= x['orig'][1] for x in cov):
+                bad['K6-line-keeps-commit-path-and-original-number'] = True
+            if inp['split']:
+                hsh = _concrete_expected(inp['note'], hk['orig_path'], O) if inp.get('note') is not None else None
+                want = HUMANS[hsh] if hsh is not None else None
+                if not any(x.get('person') == want for x in cov):
+                    bad['K6-line-is-under-the-person-of-its-session'] = True
+        return {'reproduced': bool(bad.get(ob)), 'native': r}
+    finally:
+        subprocess.call(['rm', '-rf', tmp])
+
+
 def replay(v, native):
+    if v['obligation'].startswith('K6-'):
+        return _replay_split(v, native)
     if v['obligation'].startswith('K4-'):
         return _replay_porcelain(v, native)
     if v['obligation'].startswith('K5-'):
@@ -824,3 +974,4 @@ def replay(v, native):
         return {'reproduced': bool(bad.get(ob)), 'native': r}
     finally:
         subprocess.call(['rm', '-rf', tmp])
+MUST_COVER = ['K6-split-into-1', 'K6-split-into-2', 'K6-split-into-3']
